@@ -1025,6 +1025,18 @@ class x86allmncs(object):
         if out == []: return [], [] # zip returns only one list
         return [list(_) for _ in zip(*out)]
 
+    def size_of_modif(self, modifs):
+        # the operand size that check_size_modif() accepts for a row
+        # (None: more than one)
+        if modifs[sd] is not None:
+            return {False: x86_afs.f64, True: x86_afs.f32,
+                    'fp80': x86_afs.f80}.get(modifs[sd])
+        if modifs[wd] is not None:
+            return [x86_afs.u32, x86_afs.u16][modifs[wd]]
+        if modifs[mmx] is not None:
+            return None
+        return [x86_afs.u32, x86_afs.u08][modifs[w8]==True]
+
     def check_size_modif(self, size, modifs):
         if modifs[sd] is not None:
             if   modifs[sd] == False  and size in [x86_afs.u64,x86_afs.f64]:
@@ -3203,6 +3215,16 @@ class x86_mn(x86_mn_base):
                      if not (c.modifs[mmx] and mmx_undefined_form(c, prefix))]
         if not candidate:
             log.warning("no mnemonic found")
+
+        # a memory operand without size ('sgdt [eax]'; 'sgdt (%eax)': the
+        # AT&T mnemonic takes no suffix): when every row of the mnemonic
+        # takes the same operand size, that size is meant
+        if len(args_eval) == 1 and args_eval[0][x86_afs.ad] is True:
+            sizes = set([x86mndb.size_of_modif(c.modifs) for c in candidate
+                         if c.afs in [d0, d1, d2, d3, d4, d5, d6, d7]])
+            if len(sizes) == 1 and not None in sizes:
+                args_eval[0][x86_afs.ad] = sizes.pop()
+                args_eval[0][x86_afs.size] = args_eval[0][x86_afs.ad]
 
         can_be_16_32 = True
         log.debug("candi:")
